@@ -10,7 +10,7 @@ Require Import KV.CrossWindow.Model KV.CrossWindow.Spec KV.CrossWindow.RoundProo
 Open Scope N_scope.
 
 (* (1) The semiring fixpoint theorem at the expiry instance (max, min): for every positive safe rule
-   set and every base of alive facts (positive u64 expiries, no triple listed with two expiries),
+   set and every base of alive facts (positive u64 expiries; a triple may be listed several times),
    whenever the from-scratch evaluation (provenance semi-naive with in-place tag updates and
    re-triggering of improved facts) returns, the entry it keeps for a fact f is exactly
    E f = the largest t such that f has a derivation all of whose leaves expire at t or later,
@@ -20,7 +20,6 @@ Theorem C12_fixpoint :
   forall (fuel : nat) (P : list rule) (rt : N -> option N) (base : list (triple * N)) (st : state),
     wf_rules P = true ->
     (forall f e, In (f, e) base -> 0 < e /\ e <= INF) ->
-    functional_base base ->
     scratch_core fuel P rt base = Some st ->
     forall c f e, In (c, f, e) st <-> (rt (tpred f) = Some c /\ is_E P base f e).
 Proof. exact fixpoint_thm. Qed.
@@ -29,16 +28,15 @@ Print Assumptions C12_fixpoint.
 (* (2) One incremental step, at the level of alive facts: if the carried-over state is E over the
    previous alive facts (restricted to component facts beyond the previous time), and the new alive
    facts are consistent with the previous ones (facts stay listed until they expire, a re-arrival
-   never shortens an expiry, static facts are the same), then the incremental evaluation, whenever
+   never shortens an expiry, static facts persist), then the incremental evaluation, whenever
    it returns, is E over the new alive facts restricted to component facts beyond the new time. *)
 Theorem C12_step_base :
   forall (fuel : nat) (P : list rule) (rt rt' : N -> option N) (base base' : list (triple * N))
          (old : state) (now now' : N) (st' : state),
     wf_rules P = true -> routed_rules rt P = true ->
     now <= now' -> now' < INF ->
-    (forall f e, In (f, e) base -> e <= INF) ->
-    alive_base base' now' -> functional_base base' ->
-    base_consistent base base' now' -> static_stable base base' ->
+    alive_base base' now' ->
+    base_consistent base base' now' ->
     E_state P base rt now old ->
     incr_core fuel P rt' base' old now' = Some st' ->
     E_state P base' rt' now' st'.
@@ -110,7 +108,6 @@ Theorem C12_fixpoint_terminates :
   forall (fuel : nat) (P : list rule) (rt : N -> option N) (base : list (triple * N)),
     wf_rules P = true ->
     (forall f e, In (f, e) base -> 0 < e /\ e <= INF) ->
-    functional_base base ->
     (fuel_bound P base [] 0 <= fuel)%nat ->
     exists st, scratch_core fuel P rt base = Some st.
 Proof. exact scratch_terminates. Qed.
@@ -165,26 +162,25 @@ Proof. exact enc_injective. Qed.
 Print Assumptions C12_enc_injective.
 
 (* ---- the hypotheses are needed (counterexamples on the faithful model, replayed on the code) ------------ *)
-(* two components list the same annotated triple (IRI-prefix collision): the kept expiry is the finite one *)
-Theorem C12_collision_refuted :
-  exists (S : sds) (now : N) (st : state),
-    (now <? INF) && no_overflow S = true /\
-    functional_b (translate S now) = false /\
-    incremental 50 [] S [] now = Some st /\
-    ~ E_state [] (translate S now) (route S) now st.
-Proof. exact collision_refuted. Qed.
-Print Assumptions C12_collision_refuted.
+(* the seeding of the tag store as it was before the repair of finding C12-annotation-collision kept
+   the finite expiry of a fact that two components list; the repaired seeding keeps the latest *)
+Theorem C12_prefix_seeding_collision :
+  let l := translate colA 5 in
+  let f := (enc b_s, annotate [97; 47; 98; 47] b_p, enc b_o) in
+  In (f, 15) l /\ In (f, INF) l /\ get_tag (seed_tags_prefix l) f = 15 /\ get_tag (seed_tags l) f = INF.
+Proof. exact prefix_seeding_collision. Qed.
+Print Assumptions C12_prefix_seeding_collision.
 
-(* a static graph that changes along the history *)
-Theorem C12_static_change_refuted :
-  exists (P : list rule) (S S' : sds) (now now' : N) (old st' : state),
-    wf_rules P = true /\ routed_rules (route S) P = true /\ now < now' /\ sds_ok S' now' = true /\
+(* a static graph that loses a triple along the history (static graphs may only grow) *)
+Theorem C12_static_removal_refuted :
+  exists (S S' : sds) (now now' : N) (old st' : state),
+    now < now' /\ sds_ok S' now' = true /\
     window_consistent S S' now' = false /\
-    incremental 50 P S [] now = Some old /\
-    incremental 50 P S' old now' = Some st' /\
-    ~ E_state P (translate S' now') (route S') now' st'.
-Proof. exact static_change_refuted. Qed.
-Print Assumptions C12_static_change_refuted.
+    incremental 50 [] S [] now = Some old /\
+    incremental 50 [] S' old now' = Some st' /\
+    ~ E_state [] (translate S' now') (route S') now' st'.
+Proof. exact static_removal_refuted. Qed.
+Print Assumptions C12_static_removal_refuted.
 
 (* a rule that concludes a predicate of no component (outside "rule sets over window-annotated predicates") *)
 Theorem C12_unrouted_refuted :
@@ -237,3 +233,35 @@ Module Example1.
     end = [5].
   Proof. vm_compute. split; reflexivity. Qed.
 End Example1.
+
+(* the inputs of the repaired finding are ordinary admissible histories now: two components list the
+   same annotated triple (window + static graph; two windows of widths 10 and 100), and a static graph
+   that gains a triple which is carried over with a finite expiry *)
+Module Example2.
+  Definition colW : sds :=
+    mkSds [([97; 47], 10, [(b_s, [98; 47; 112], b_o, 5)]); ([97; 47; 98; 47], 100, [(b_s, b_p, b_o, 5)])] [] [].
+  Definition f : triple := (enc b_s, annotate [97; 47; 98; 47] b_p, enc b_o).
+  Definition cab : N := enc [97; 47; 98; 47].
+  Example window_and_static :
+    history_ok [] None [(colA, 5); (colA, 14)] = true /\
+    run_history 50 [] [] [(colA, 5); (colA, 14)] = Some [[(cab, f, INF)]; [(cab, f, INF)]].
+  Proof. vm_compute. split; reflexivity. Qed.
+  Example two_windows :
+    history_ok [] None [(colW, 5); (colW, 16)] = true /\
+    run_history 50 [] [] [(colW, 5); (colW, 16)] = Some [[(cab, f, 105)]; [(cab, f, 105)]].
+  Proof. vm_compute. split; reflexivity. Qed.
+  (* { ?x w:p ?y } => { ?x g:q ?y }: (a g:q b) is derived with expiry 11, then the static graph lists it *)
+  Definition rG : rule := mkRule [(V 0, C (annotate [119; 47] b_p), V 1)] [(V 0, C (annotate [103; 47] b_q), V 1)].
+  Definition sG1 : sds := mkSds [([119; 47], 10, [(b_a, b_p, b_b, 1)])] [([103; 47], [])] [].
+  Definition sG2 : sds := mkSds [([119; 47], 10, [(b_a, b_p, b_b, 1)])] [([103; 47], [(b_a, b_q, b_b)])] [].
+  Example static_graph_grows :
+    history_ok [rG] None [(sG1, 1); (sG2, 2)] = true /\
+    match run_history 50 [rG] [] [(sG1, 1); (sG2, 2)] with
+    | Some [st1; st2] =>
+        (map (fun x : N * triple * N => snd x) (filter (fun x : N * triple * N => triple_eqb (snd (fst x)) (enc b_a, annotate [103; 47] b_q, enc b_b)) st1),
+         map (fun x : N * triple * N => snd x) (filter (fun x : N * triple * N => triple_eqb (snd (fst x)) (enc b_a, annotate [103; 47] b_q, enc b_b)) st2))
+    | _ => ([], [])
+    end = ([11], [INF]).
+  Proof. vm_compute. split; reflexivity. Qed.
+End Example2.
+
